@@ -7,6 +7,18 @@ import sys, re
 
 def canon(line, drop_nodes):
     toks = line.split()
+    if drop_nodes and 'C' in toks:
+        # crash-point recoveries of multi-node trees: the crash index does not align with the
+        # one-node model; they are checked by the property monitor only
+        kept, skip = [], False
+        for t in toks:
+            if t == 'C':
+                skip = True
+            elif t == ';':
+                skip = False
+            if not skip:
+                kept.append(t)
+        toks = kept
     out = []
     i = 0
     while i < len(toks):
